@@ -322,6 +322,41 @@ V['N34-istiff-if-chain']=[('imagetype/imagetype.go',[("""	return len(buf) > 4 &&
 	}
 	return false""")])]
 
+V['N37-route-switch-exif2']=[('exif2/reader.go',[("""		if t.IsEmbedded() {
+			ir.parseTag(t)
+		} else {
+			ir.addTagBuffer(t)
+		}""","""		switch {
+		case t.IsEmbedded():
+			ir.parseTag(t)
+		default:
+			ir.addTagBuffer(t)
+		}""")])]
+V['N39-peek-wrapper-switch-xmp']=[('xmp/reader.go',[("""	if buf, err = br.r.Peek(n); err == io.EOF {
+		if len(buf) > 4 {
+			return buf, nil
+		}
+		return buf, err
+	}
+	return
+}""","""	buf, err = br.r.Peek(n)
+	if err == io.EOF && len(buf) > 4 {
+		return buf, nil
+	}
+	return buf, err
+}""")])]
+V['N40-ftyp-close-var']=[('isobmff/ftyp.go',[("""	return ftyp, b.close()
+}""","""	err = b.close()
+	return ftyp, err
+}""")])]
+V['N41-guarded-narrow-stringer']=[('meta/exifTypes.go',[("""	if int(mm) < len(_MeteringModeIndex)-1 {
+		return _MeteringModeName[_MeteringModeIndex[mm]:_MeteringModeIndex[mm+1]]
+	}""","""	if mm <= 0xff {
+		if i := uint8(mm); int(i) < len(_MeteringModeIndex)-1 {
+			return _MeteringModeName[_MeteringModeIndex[i]:_MeteringModeIndex[i+1]]
+		}
+	}""")])]
+
 def build(name, edits, out):
     d=tempfile.mkdtemp(prefix='imverif-neutral-',dir='/var/tmp')
     try:
